@@ -613,7 +613,7 @@ func runC14(c *Ctx, r *Run) {
 		r.Analysed(c.FuncName(fn))
 		bound := false
 		for _, g := range liftedGuards(fn, 0) {
-			if !strings.HasSuffix(g.decider, "Hash.Decommit") || !guardCoversAccepts(g) {
+			if !decHasSuffix(g.decider, "Hash.Decommit") || !guardCoversAccepts(g) {
 				continue
 			}
 			call := condCall(g.cond)
